@@ -2,6 +2,7 @@
 from ..rt import check
 
 STREAMS = ["termination"]
+REGENERATE_SRC = True
 RULE = ("gated scenarios: still-running coroutine payloads (sleeping, spinning on zero-length sleeps, adopted from other "
         "payloads, parked on an awaitable nothing else refers to - with the cyclic garbage collector run on purpose before the trigger -, with synchronous cleanup 0..50 ms and trio shielded cleanup 0..300 ms) and blocked thread payloads x "
         "trigger (failure in each flavour, SIGINT, shutdown() from outside, shutdown() from a thread payload) x trigger "
